@@ -481,19 +481,7 @@ func (c *Ctx) isLoopIndex(idx ssa.Value, l *scanLoop) bool {
 
 func ruleC01Effects(c *Ctx) {
 	checkEffects(c, "C01", "C01.effects")
-	// the per-tree entry counter is bumped exactly once per tree entry
-	if el := c.entryLoop(); el == nil || el.Fn == nil {
-		c.violate("C01.effects", "entry-loop", token.NoPos, "", "cannot find the single loop that iterates (*git.TreeIter).NextEntry")
-	} else {
-		roles, _ := c.effects().bindRoles()
-		en := roles["$E"]
-		ec := c.effectCounter(func(ed *effEdge) bool { return ed.Target == en && ed.Op == "ADD" && termsKey(ed.Terms) == "const:1" }, true)
-		if r := ec.perIteration(el.L); r.Min == 1 && r.Max == 1 {
-			c.hold("C01.effects", "entry-count-once", el.Call.Pos(), "the entry counter is incremented by 1 exactly once on every path through an iteration of the tree-entry loop")
-		} else {
-			c.violate("C01.effects", "entry-count-once", el.Call.Pos(), fnName(el.Fn), fmt.Sprintf("the per-tree entry counter is incremented between %d and %d times per tree entry (must be exactly once in every entry-kind arm)", r.Min, r.Max))
-		}
-	}
+	c.checkEntryCountOnce("C01.effects")
 	// provenance: id and size/data handed to a Register* call come from the same record
 	si := c.scanModel()
 	if si.Fn == nil {
@@ -854,5 +842,23 @@ func (c *Ctx) checkTwiceGuard(f *ssa.Function, what string) {
 	})
 	if !bad {
 		c.hold("C01.once", "twice-guard:"+what, guardIf.Pos(), "panics on a second registration before doing anything else")
+	}
+}
+
+// checkEntryCountOnce: the per-tree entry counter is bumped exactly once
+// per tree entry, on every path through the entry loop.
+func (c *Ctx) checkEntryCountOnce(rule string) {
+	el := c.entryLoop()
+	if el == nil || el.Fn == nil {
+		c.violate(rule, "entry-loop", token.NoPos, "", "cannot find the single loop that iterates (*git.TreeIter).NextEntry")
+		return
+	}
+	roles, _ := c.effects().bindRoles()
+	en := roles["$E"]
+	ec := c.effectCounter(func(ed *effEdge) bool { return ed.Target == en && ed.Op == "ADD" && termsKey(ed.Terms) == "const:1" }, true)
+	if r := ec.perIteration(el.L); r.Min == 1 && r.Max == 1 {
+		c.hold(rule, "entry-count-once", el.Call.Pos(), "the entry counter is incremented by 1 exactly once on every path through an iteration of the tree-entry loop")
+	} else {
+		c.violate(rule, "entry-count-once", el.Call.Pos(), fnName(el.Fn), fmt.Sprintf("the per-tree entry counter is incremented between %d and %d times per tree entry (must be exactly once in every entry-kind arm and in both delivery orders of a subtree)", r.Min, r.Max))
 	}
 }
